@@ -276,6 +276,8 @@ func (db *TrieDatabase) Commit(node common.Hash, report bool) error {
 		}
 		if batch.ValueSize() > IdealBatchSize {
 			if err := batch.Commit(); err != nil {
+				log.Error("Failed to write preimages to disk", "err", err)
+				db.lock.RUnlock()
 				return err
 			}
 			batch.Reset()
